@@ -1,6 +1,6 @@
 (* C08 — each needed target runs exactly once per one-shot run; others never.
    Property theorems only; proofs are in Proofs/SysOneShot.v, Proofs/SysC07.v. *)
-From Zinoma.Proofs Require Import SysOneShot SysC07 SysC08.
+From Zinoma.Proofs Require Import SysOneShot SysC07 SysC08 SysNeeded.
 
 (* In a one-shot run (no change notification exists), whatever the interleaving of the duplicate requests, no target is
    started twice. *)
@@ -34,3 +34,17 @@ Theorem C08_exactly_once_on_success :
     g !! t = Some (kt, deps) -> kt <> AAggregate ->
     count_occ obs_eq_dec (hist s) (ObStart t) = 1 /\ ObSucc t ∈ hist s.
 Proof. exact exactly_once_on_success. Qed.
+
+(* "OTHERS NEVER", inside the resolved graph too.  Every mode, every graph, pinned or repaired handlers, every interleaving: only a
+   requested target, or a target a requested one depends on (directly or transitively), is ever started ... *)
+Theorem C08_only_needed_targets_start :
+  forall (fx : bool) (g : graph) (roots : list tid) (w : bool) (s : sys) (t : tid),
+    reachable fx w g roots s -> ObStart t ∈ hist s -> exists r, r ∈ roots /\ (t = r \/ tdep g r t).
+Proof. exact only_needed_targets_start. Qed.
+
+(* ... or is even sent a request: the actors of the other targets are never spoken to (the code launches an actor at the first
+   message forwarded to it: for the other targets no actor, no watcher, no script ever exists) *)
+Theorem C08_only_needed_targets_requested :
+  forall (fx : bool) (g : graph) (roots : list tid) (w : bool) (s : sys) (d : tid) (k : kind) (r : aid),
+    reachable fx w g roots s -> msg_in s (ATarget d) (MRequested k r) -> exists r0, r0 ∈ roots /\ (d = r0 \/ tdep g r0 d).
+Proof. exact only_needed_targets_requested. Qed.
